@@ -68,7 +68,7 @@ def plan(tier: str, seed: int) -> list[dict]:
         cases.append({"k": "qcow2-snapshots", "i": (i := i + 1), "n": rng.choice([1, 2, 3, 5]), "ext": rng.random() < 0.3})
     for _ in range(30 * mult):
         cases.append({"k": "vdi-parent", "i": (i := i + 1), "depth": rng.choice([2, 2, 3, 4])})
-    fmts = ["vhdx", "vmdk", "vmdk-embedded", "hdd-image", "hdd-shot", "qcow2", "vmdk-embedded-unnamed", "vhdx-unnamed"]
+    fmts = ["vhdx", "vmdk", "vmdk-embedded", "hdd-image", "hdd-shot", "qcow2", "vmdk-embedded-unnamed", "vhdx-unnamed", "hdd-image-entry", "vmdk-no-hint"]
     for j in range(18 * mult):
         cases.append({"k": "missing", "i": (i := i + 1), "fmt": fmts[j % len(fmts)]})
     cases.append({"k": "fixture-avhdx", "i": 0, "weight": 10})
@@ -244,6 +244,19 @@ def _snapshots(case, rng, ctx, res):
             if views[j].tell() != p:
                 res["viol"].append({"what": "reading one view moved another view's position", "mech": MECH, "detail": {"view": j}})
                 return res
+    if not res["viol"]:
+        # every view once more from end to end (the tail beyond a snapshot's own tables included)
+        for vi, st in sorted(views.items()):
+            o3 = call(lambda: (st.seek(0), st.read(size))[1])
+            cnt["reads_compared"] = cnt.get("reads_compared", 0) + 1
+            if not o3.ok:
+                res["viol"].append({"what": f"read raised: {o3.brief()}", "mech": MECH, "detail": {"view": vi, "tb": o3.tb}})
+                break
+            if o3.value != models[vi].expected(0, size):
+                d = mismatch_detail(0, size, o3.value, models[vi].expected(0, size))
+                d["view"] = vi
+                res["viol"].append({"what": "snapshot/active view served another view's bytes", "mech": MECH, "detail": d})
+                break
     cnt["qcow2-snapshots_cases"] = 1
     res["nontrivial"] = len(set(order)) >= 2
     res["sig"] = ("qcow2-snapshots", case["i"])
@@ -271,9 +284,28 @@ def _missing(case, rng, ctx, res):
         text = wvmdk.descriptor_text([f'RW {cap} SPARSE "child.vmdk"'], cid="22222222", parent_cid=rng.choice(["11111111", "0a0b0c0d", "fffffffe"]),
                                      parent_hint=rng.choice(["base.vmdk", "/vmfs/volumes/x/base.vmdk", "../base/base.vmdk"]))
         sf, _, _ = wvmdk.build_hosted(rng, capacity=cap, grain=8, ngte=64, tag=rng.getrandbits(32), descriptor=text)
-        fh = as_handle(sf.to_bytes())
+        fh = as_handle(sf.to_bytes(), name=False)
         assert not hasattr(fh, "name")
         o = call(lambda: VMDK([fh] if rng.random() < 0.5 else fh).read(512))
+    elif fmt == "vmdk-no-hint":
+        # a delta disk (parentCID set) whose descriptor does not say where the parent is; descriptor file or embedded, opened by path
+        from dissect.hypervisor.disk.vmdk import VMDK
+        from vf.writers import vmdk as wvmdk
+
+        d = Path(ctx.tmpdir())
+        cap = rng.choice([64, 200, 1000])
+        embedded = rng.random() < 0.5
+        text = wvmdk.descriptor_text([f'RW {cap} SPARSE "{"child.vmdk" if embedded else "child-s001.vmdk"}"'], cid="22222222",
+                                     parent_cid=rng.choice(["11111111", "0a0b0c0d", "fffffffe"]), parent_hint=None)
+        sf, _, _ = wvmdk.build_hosted(rng, capacity=cap, grain=8, ngte=64, tag=rng.getrandbits(32), descriptor=text if embedded else None)
+        if embedded:
+            sf.write_to(str(d / "child.vmdk"))
+        else:
+            sf.write_to(str(d / "child-s001.vmdk"))
+            (d / "child.vmdk").write_text(text)
+        # a plausible parent lies next to it: it must not be guessed, and the child must not be shown alone
+        (d / "base.vmdk").write_bytes((d / ("child.vmdk" if embedded else "child-s001.vmdk")).read_bytes())
+        o = call(lambda: VMDK(d / "child.vmdk").read(512))
     elif fmt == "vhdx-unnamed":
         # a differencing VHDX handed over as a nameless stream: there is no directory to look for the parent in
         from dissect.hypervisor.disk.vhdx import VHDX
@@ -283,7 +315,7 @@ def _missing(case, rng, ctx, res):
                                   ("absolute_win32_path", "C:\\vm\\base.vhdx")], rng=rng)
         sf, _, _ = wvx.build(rng, block_size=1 << 20, sector_size=512, nblocks=3, states=[6, 0, 7], tag=rng.getrandbits(32), has_parent=True, locator=loc,
                              partial={2: chains.bitmap_flags(rng, (1 << 20) // 512)}, checksums=False)
-        fh = as_handle(sf.to_bytes() if rng.random() < 0.5 else sf)
+        fh = as_handle(sf.to_bytes() if rng.random() < 0.5 else sf, name=False)
         o = call(lambda: VHDX(fh).read(4096))
     elif fmt == "qcow2":
         from dissect.hypervisor.disk.qcow2 import QCow2
@@ -303,6 +335,14 @@ def _missing(case, rng, ctx, res):
         if fmt == "hdd-image":
             files = {"top.hds": sf}  # the parent's image file is absent
             shots = [(g2, g1), (g1, whds.NULL_GUID)]
+        elif fmt == "hdd-image-entry":
+            # two storages; one of them has no image entry for the parent snapshot (all files are there)
+            files = {"top.hds": sf, "base.hds": sf, "top2.hds": sf, "base2.hds": sf}
+            shots = [(g2, g1), (g1, whds.NULL_GUID)]
+            second = {"start": 32, "end": 64, "images": [{"guid": g2, "type": "Compressed", "file": "top2.hds"}, {"guid": g1, "type": "Compressed", "file": "base2.hds"}]}
+            storages.append(second)
+            victim = rng.choice(storages)
+            victim["images"] = [im for im in victim["images"] if im["guid"] != g1]
         else:
             files = {"top.hds": sf, "base.hds": sf}
             shots = [(g2, g1)]  # the parent shot is not listed
